@@ -36,7 +36,58 @@ def selfcheck():
 
 
 def plan(tier, seed):
-    return [dict(name=f"hist-{i}", i=i) for i in range(NSHARD)]
+    return [dict(name=f"hist-{i}", i=i) for i in range(NSHARD)] + [dict(name="invalid-keys", kind="keys")]
+
+
+BAD_KEYS = ["a b", "ä", "a@b", "g/a b", "g/ä/x", "tab\tkey", "@"]
+
+
+def check_invalid_keys(cls_name, in_patch, rec):
+    """Keys outside the documented alphabet (printable ASCII without blank and '@') are refused by EVERY entry point,
+    with no effect - an accepted one would make a node that no other call can address."""
+    from ..treemodel import dump_real
+
+    t = _mk(cls_name)()
+    try:
+        r = t.rec
+        r["g/x"] = 1
+        r["d"] = 2
+        if in_patch:
+            t.commit()
+        for key in BAD_KEYS:
+            before = dump_real(r, crosscheck=False)
+            for how, fn in (("setitem", lambda: r.__setitem__(key, 1)), ("create_group", lambda: r.create_group(key)),
+                            ("require_group", lambda: r.require_group(key)), ("create_dataset", lambda: r.create_dataset(key, data=1)),
+                            ("require_dataset", lambda: r.require_dataset(key, shape=(), dtype="i8")),
+                            ("copy_dst", lambda: r.copy("d", key)), ("move_dst", lambda: r.move("d", key)),
+                            ("attr_set", lambda: r["g"].attrs.__setitem__(key, 1))):
+                if how == "attr_set" and "/" in key:
+                    continue
+                case = dict(kind="keys", cls=cls_name, in_patch=in_patch, key=key, how=how)
+                try:
+                    fn()
+                    raised = False
+                except Exception:  # noqa: BLE001
+                    raised = True
+                try:
+                    after = dump_real(r, crosscheck=False)
+                except Exception as e:  # noqa: BLE001 - e.g. the new node cannot be addressed by the listing itself
+                    after = {"<unreadable>": f"{type(e).__name__}: {e}"}
+                if not raised or after != before:
+                    rec.fail(f"C01:invalid-key-accepted:{how}", case,
+                             f"{how} with key {key!r}: raised={raised}, tree {'changed' if after != before else 'unchanged'}"
+                             f" (now {sorted(after)})", "refused without effect")
+                    t.destroy()
+                    t = _mk(cls_name)()
+                    r = t.rec
+                    r["g/x"] = 1
+                    r["d"] = 2
+                    if in_patch:
+                        t.commit()
+                    before = dump_real(r, crosscheck=False)
+                rec.case(nt_key=[cls_name, in_patch, key, how], classes=["invalid_key_refused"], sample=None)
+    finally:
+        t.destroy()
 
 
 def _mk(cls_name):
@@ -64,6 +115,11 @@ def run_case(case, rec=None):
 
 def run_shard(shard, tier, seed, rec):
     H.install_work_guard()
+    if shard.get("kind") == "keys":
+        for cn in ("IH5Record", "IH5MFRecord"):
+            for ip in (False, True):
+                check_invalid_keys(cn, ip, rec)
+        return
     i = shard["i"]
     n = {"quick": 70, "thorough": 2500}[tier]
     max_ops = {"quick": 30, "thorough": 60 if i % 4 else 120}[tier]
@@ -76,6 +132,9 @@ def run_shard(shard, tier, seed, rec):
 def replay(rp, rec):
     H.install_work_guard()
     try:
-        run_case(rp["case"], rec)
+        if rp["case"].get("kind") == "keys":
+            check_invalid_keys(rp["case"]["cls"], rp["case"]["in_patch"], rec)
+        else:
+            run_case(rp["case"], rec)
     except Violation as v:
         rec.fail(v.signature, rp["case"], v.observed, v.expected)
